@@ -273,7 +273,7 @@ func oracleWith(c *Config, f *Forged, rx relax) Verdict {
 
 	// ---- precommits ----------------------------------------------------------
 	goodPay := VotePayload(h.Hash(), cd.Round, uv.RoundIndex)
-	v.Quorum = uint32(float64(tv) * ucon.ValidatorProportionThreshold)
+	v.Quorum = oracleQuorum(tv, false, rx.DeclTV)
 	v.Weight, v.Counted = tally(c, c.True, uv.ChamberCommitters, f.AggKind, f.AggOf, goodPay, c.LBSeed, uv.RoundIndex, uint32(ucon.Precommit), tv, rx, "", v.Excluded)
 	if v.Weight < v.Quorum {
 		reject(fmt.Sprintf("valid precommit weight %d below the protocol quorum %d", v.Weight, v.Quorum))
@@ -295,7 +295,7 @@ func oracleWith(c *Config, f *Forged, rx relax) Verdict {
 		if err := rlp.DecodeBytes(h.Certificate, &uc); err != nil {
 			reject("certificate record undecodable")
 		} else {
-			v.CertQuorum = uint32(float64(tc) * ucon.CertValProportionThreshold)
+			v.CertQuorum = oracleQuorum(tc, true, rx.DeclTC)
 			v.CertWeight, _ = tally(c, c.CertView, uc.ChamberCerts, f.CertAggKind, f.CertAggOf, goodPay, f.CertSeed, uv.RoundIndex, uint32(ucon.Certificate), tc, rx, "certificate: ", v.Excluded)
 			v.CertOK = v.CertWeight >= v.CertQuorum
 			if !v.CertOK {
@@ -305,6 +305,20 @@ func oracleWith(c *Config, f *Forged, rx relax) Verdict {
 	}
 	v.Accept = len(v.Reasons) == 0
 	return v
+}
+
+// oracleQuorum: the protocol's quorum is the exact reference ⌊fraction·committee size⌋ of the PROTOCOL's committee
+// size (quorum.go: integer arithmetic, own constants).  Only under a relaxation that takes the committee size from
+// what a header declares (attribution of an already established violation to its root cause) the quorum is what the
+// verifier's float expression makes of that arbitrary 64-bit number, conversion overflow included.
+func oracleQuorum(size uint64, cert, declared bool) uint32 {
+	if q, ok := refQuorum32(size, cert); ok && !declared {
+		return q
+	}
+	if cert {
+		return uint32(float64(size) * ucon.CertValProportionThreshold)
+	}
+	return uint32(float64(size) * ucon.ValidatorProportionThreshold)
 }
 
 // explain attributes an acceptance the protocol forbids to a 1-minimal set of
